@@ -32,24 +32,22 @@ Print Assumptions C11_gen_weekday_diff.
 
 (* part 2: year / day arithmetic and iso_encoding *)
 From Tetl Require Import C11.ModelCal.
-Theorem C11_gen_year_plus : forall y dy, Gen_chrono.year_plus_g y dy = year_plus_m y dy.
-Proof. exact gen_year_plus_eq. Qed.
-Print Assumptions C11_gen_year_plus.
-Theorem C11_gen_year_diff : forall a b, of_opt (Gen_chrono.year_diff_g a b) = year_diff_m a b.
-Proof. exact gen_year_diff_eq. Qed.
-Print Assumptions C11_gen_year_diff.
-Theorem C11_gen_day_plus : forall d dd,
-  day_plus_m d dd = Contract \/ of_opt (Gen_chrono.day_plus_g d dd) = day_plus_m d dd.
-Proof. exact gen_day_plus_eq. Qed.
-Print Assumptions C11_gen_day_plus.
-Theorem C11_gen_day_minus_days : forall d dd,
-  day_minus_days_m d dd = Contract \/ of_opt (Gen_chrono.day_minus_days_g d dd) = day_minus_days_m d dd.
-Proof. exact gen_day_minus_days_eq. Qed.
-Print Assumptions C11_gen_day_minus_days.
-Theorem C11_gen_day_diff : forall a b, 0 <= a <= 255 -> 0 <= b <= 255 ->
-  Gen_chrono.day_diff_g a b = Some (day_diff_m a b).
-Proof. exact gen_day_diff_eq. Qed.
-Print Assumptions C11_gen_day_diff.
-Theorem C11_gen_weekday_iso : forall w, Gen_chrono.weekday_iso_g w = Some (weekday_iso_m w).
-Proof. exact gen_weekday_iso_eq. Qed.
-Print Assumptions C11_gen_weekday_iso.
+Theorem C11_gen_year_ops :
+  (forall y dy, Gen_chrono.year_plus_g y dy = year_plus_m y dy)
+  /\
+  (forall a b, of_opt (Gen_chrono.year_diff_g a b) = year_diff_m a b).
+Proof. exact (conj gen_year_plus_eq (gen_year_diff_eq)). Qed.
+Print Assumptions C11_gen_year_ops.
+Theorem C11_gen_day_ops :
+  (forall d dd,
+    day_plus_m d dd = Contract \/ of_opt (Gen_chrono.day_plus_g d dd) = day_plus_m d dd)
+  /\
+  (forall d dd,
+    day_minus_days_m d dd = Contract \/ of_opt (Gen_chrono.day_minus_days_g d dd) = day_minus_days_m d dd)
+  /\
+  (forall a b, 0 <= a <= 255 -> 0 <= b <= 255 ->
+    Gen_chrono.day_diff_g a b = Some (day_diff_m a b))
+  /\
+  (forall w, Gen_chrono.weekday_iso_g w = Some (weekday_iso_m w)).
+Proof. exact (conj gen_day_plus_eq (conj gen_day_minus_days_eq (conj gen_day_diff_eq (gen_weekday_iso_eq)))). Qed.
+Print Assumptions C11_gen_day_ops.
